@@ -5,6 +5,7 @@ from ..guards import guards, strip_not
 from ..rules_e1 import run_e1, by_names
 from ..rules_shape import floor_a
 from ..rules_dep import run_dep
+from ..rules_tz import handover_civil
 
 AT = "tz::ambiguous::AmbiguousTimestamp"
 AZ = "tz::ambiguous::AmbiguousZoned"
@@ -70,6 +71,7 @@ def run(ctx, rep):
     kind_table(rep, prog)
     lookup_table_tzif(rep, prog)
     lookup_table_posix(rep, prog)
+    handover_civil(rep, prog)
     run_e1(ctx, rep, lambda E: by_names(E, ROOTS), min_roots=12, min_sites=150)
     floor_a(ctx, rep)
 
